@@ -433,8 +433,14 @@ def wrapper_forwarding(ctx, f):
         raise AnalysisError('%s never calls <solver>.Solve' % f.qualname)
     sv = solves[0].func.value.id
 
+    kwname = f.node.args.kwarg.arg if f.node.args.kwarg else None
+    params = set(f.args())
+
     def rel(n):
         if isinstance(n, ast.Call) and isinstance(n.func, ast.Attribute) and isinstance(n.func.value, ast.Name) and n.func.value.id == sv:
+            return True
+        # tests on what the caller gave (`'penalty' in kwds`, `bounds is not None`) stay visible even when their branch is empty
+        if isinstance(n, ast.Compare) and any(isinstance(x, ast.Name) and (x.id == kwname or x.id in params) for x in ast.walk(n)):
             return True
         return isinstance(n, (ast.Return, ast.Raise))
     out = {'paths': 0, 'solver': sv}
@@ -449,6 +455,8 @@ def wrapper_forwarding(ctx, f):
                 c, tr = T.simp(b.t(e[1])), e[2]
                 while isinstance(c, tuple) and c and c[0] == 'not':
                     c, tr = c[1], not tr
+                if isinstance(c, tuple) and c and c[0] == 'cmp' and c[1] in ('isnot', 'notin'):
+                    c, tr = ('cmp', {'isnot': 'is', 'notin': 'in'}[c[1]]) + c[2:], not tr
                 lits.append((c, tr))
             elif e[0] == 'stmt':
                 st = e[1]
